@@ -17,6 +17,8 @@ import (
 	"compress/zlib"
 	"fmt"
 	"io"
+	"math"
+	"math/rand"
 	"os"
 	"regexp"
 	"seehuhn.de/go/xmp"
@@ -558,6 +560,70 @@ func TestB2C03Large(t *testing.T) {
 			}
 		}
 	}
+	// the same kind of document with most of the strings in object streams of irregular size
+	// (many object streams, the late ones with high object numbers), and sparse documents:
+	// object numbers (also those of object streams) far above the byte offsets in the file,
+	// on both sides of the values that need one, two or three bytes in a cross-reference
+	// stream entry; all checked by the strict parser, which follows every type-2 entry into
+	// the object stream it names, and compared with what was written
+	seed := c03Seed()
+	batches := c03Prog{"large-compressed", func(p *c03Pen) error {
+		if err := p.pages(); err != nil {
+			return err
+		}
+		for i := 0; i < 1500; {
+			var objs []Object
+			for n := 1 + p.rng.Intn(1+p.rng.Intn(60)); n > 0; n-- {
+				objs = append(objs, String(bytes.Repeat([]byte{byte('a' + i%26)}, p.rng.Intn(300))))
+				i++
+			}
+			var err error
+			if p.rng.Intn(4) == 0 {
+				err = p.put(p.w.Alloc(), objs[0])
+			} else {
+				err = p.compressed(objs...)
+			}
+			if err != nil {
+				return err
+			}
+			if p.rng.Intn(10) == 0 {
+				p.gap(p.rng.Intn(500))
+			}
+		}
+		return nil
+	}}
+	progs := []c03Prog{batches}
+	gaps := []int{0, 1, 100, 200, 254, 255, 256, 300, 1000, 65000, 65534, 65535, 65536, 65537, 70000}
+	for i := 0; i < 5; i++ {
+		gaps = append(gaps, rand.New(rand.NewSource(seed*100+int64(i))).Intn(1<<uint(8+3*i)))
+	}
+	if b2Thorough() {
+		gaps = append(gaps, 131072, 1<<20)
+	}
+	for _, gap := range gaps {
+		for layout := 0; layout < 3; layout++ {
+			progs = append(progs, c03Sparse(gap, layout))
+		}
+	}
+	for pi, prog := range progs {
+		for vi, v := range []Version{V1_4, V1_5, V1_7, V2_0} {
+			if v == V1_4 && pi%3 != 0 && !b2Thorough() {
+				continue
+			}
+			for hi, human := range []bool{false, true} {
+				if human && (pi+vi)%4 != 0 && !b2Thorough() {
+					continue
+				}
+				cases++
+				doc, err := c03Run(prog, v, human, (pi+vi+hi)%2 == 0, "", "", seed*1000+int64(pi))
+				if err != nil {
+					t.Errorf("B2-FAIL write-error %v", err)
+					continue
+				}
+				c03Verify(t, doc)
+			}
+		}
+	}
 	t.Logf("B2-CASES %d", cases)
 }
 
@@ -571,8 +637,29 @@ type c03Entry struct {
 	gen  int64
 }
 
+// c03Check is the strict parser of the property: cross-reference level (c03XRef) and
+// object level (c03File.objects).
 func c03Check(data []byte) error {
-	if !bytes.HasPrefix(data, []byte("%PDF-")) {
+	_, err := c03Parse(data)
+	return err
+}
+
+func c03Parse(data []byte) (*c03File, error) {
+	f := &c03File{data: data}
+	if err := c03XRef(f); err != nil {
+		return f, err
+	}
+	if err := f.objects(); err != nil {
+		return f, err
+	}
+	return f, nil
+}
+
+// c03XRef checks header, %%EOF, startxref and the cross-reference section, and fills in
+// f.entries, f.size and the position of the trailer dictionary.
+func c03XRef(f *c03File) error {
+	data := f.data
+	if !regexp.MustCompile(`^%PDF-[12]\.[0-9][\r\n]`).Match(data) {
 		return fmt.Errorf("no header")
 	}
 	trimmed := bytes.TrimRight(data, "\r\n")
@@ -631,7 +718,10 @@ func c03Check(data []byte) error {
 			return fmt.Errorf("trailer without /Size")
 		}
 		size, _ = strconv.ParseInt(string(m[1]), 10, 64)
+		f.trailerPos = p + int64(len("trailer"))
 	} else {
+		f.xrefStream = true
+		f.trailerPos = xpos
 		// xref stream
 		hdr := c03ObjHdr.FindSubmatch(data[xpos:])
 		if hdr == nil {
@@ -764,6 +854,10 @@ func c03Check(data []byte) error {
 			return fmt.Errorf("entry for object %d >= /Size %d", n, size)
 		}
 	}
+	if e0, ok := entries[0]; !ok || e0.kind != 'f' {
+		return fmt.Errorf("object 0 is not free")
+	}
+	f.entries, f.size = entries, size
 	return nil
 }
 
@@ -892,12 +986,9 @@ func TestB2C03Structure(t *testing.T) {
 			continue
 		}
 		cases++
-		if err := c03Check(doc.bytes); err != nil {
-			t.Errorf("B2-FAIL structure %s: %v", doc.desc, err)
-		}
-		if err := c03Streams(doc.bytes); err != nil {
-			t.Errorf("B2-FAIL stream-length %s: %v", doc.desc, err)
-		}
+		// strict parser (cross-reference level and object level), direct /Length values, and
+		// the values the strict parser extracts against what was written
+		c03Verify(t, doc)
 		// the decode parameters in the file describe the encoder that was used: an LZW stream
 		// written without early change says so, whatever else is in /DecodeParms
 		if doc.userPwd == "" && doc.ownerPwd == "" {
@@ -917,6 +1008,36 @@ func TestB2C03Structure(t *testing.T) {
 					if !regexp.MustCompile(`/EarlyChange\s+0`).Match(dictText) {
 						t.Errorf("B2-FAIL decode-parms %s: LZW stream %v written without early change lacks /EarlyChange 0: %.200q", doc.desc, st.ref, dictText)
 					}
+				}
+			}
+		}
+	}
+	// further write programs: token boundaries between all kinds of objects, names, strings
+	// and numbers with every kind of escape, pseudo-random programs
+	seed := c03Seed()
+	progs := append(c03Programs(), c03Sparse(300, 0), c03Sparse(70000, 1), c03Sparse(66000, 2))
+	for pi, prog := range progs {
+		for vi, v := range c03AllVersions() {
+			for hi, human := range []bool{false, true} {
+				type cfg struct {
+					seekable    bool
+					user, owner string
+				}
+				cfgs := []cfg{{(pi+vi+hi)%2 == 1, "", ""}}
+				if b2Thorough() {
+					cfgs = append(cfgs, cfg{(pi+vi+hi)%2 == 0, "", ""})
+				}
+				if v >= V1_4 && (b2Thorough() || !human && v >= V1_7) {
+					cfgs = append(cfgs, cfg{false, "", "owner"}, cfg{true, "user", "owner"})
+				}
+				for ci, c := range cfgs {
+					cases++
+					doc, err := c03Run(prog, v, human, c.seekable, c.user, c.owner, seed*1000+int64(pi*100+vi*10+hi*4+ci))
+					if err != nil {
+						t.Errorf("B2-FAIL write-error %v", err)
+						continue
+					}
+					c03Verify(t, doc)
 				}
 			}
 		}
@@ -1047,4 +1168,1368 @@ func TestB2C03Rejected(t *testing.T) {
 		}
 	}
 	t.Logf("B2-CASES %d", cases)
+}
+
+// ---- C03: strict object-level parser, written from ISO 32000-1 7.2 (lexical conventions),
+// 7.3 (objects), 7.3.8 (streams), 7.5.7 (object streams); shares no code with the library ----
+
+// c03Val is a value as extracted by the strict parser.
+type c03Val struct {
+	kind     byte // 'z' null, 'b' boolean, 'i' integer, 'r' real, 's' string, 'n' name, 'a' array, 'd' dictionary, 'R' reference
+	b        bool
+	i        int64 // integer value; object number of a reference
+	gen      int64 // generation number of a reference
+	f        float64
+	s        string
+	arr      []*c03Val
+	dict     map[string]*c03Val
+	isStream bool
+	stream   []byte // the /Length bytes after "stream" EOL
+}
+
+type c03File struct {
+	data       []byte
+	entries    map[int64]c03Entry
+	size       int64
+	xrefStream bool
+	trailerPos int64 // table: just after the keyword trailer; stream: the cross-reference stream object
+	trailer    *c03Val
+	encrypted  bool
+	objs       map[int64]*c03Val // in-use objects by number
+	busy       map[int64]bool
+	objStms    map[int64]*c03ObjStm
+}
+
+type c03ObjStm struct {
+	opaque bool // encrypted: contents not available to this parser
+	n      int64
+	nums   []int64
+	vals   []*c03Val
+}
+
+func c03IsWhite(c byte) bool {
+	return c == 0 || c == 9 || c == 10 || c == 12 || c == 13 || c == 32
+}
+
+func c03IsDelim(c byte) bool {
+	switch c {
+	case '(', ')', '<', '>', '[', ']', '{', '}', '/', '%':
+		return true
+	}
+	return false
+}
+
+func c03IsRegular(c byte) bool { return !c03IsWhite(c) && !c03IsDelim(c) }
+
+func c03Hex(c byte) int {
+	switch {
+	case c >= '0' && c <= '9':
+		return int(c - '0')
+	case c >= 'a' && c <= 'f':
+		return int(c-'a') + 10
+	case c >= 'A' && c <= 'F':
+		return int(c-'A') + 10
+	}
+	return -1
+}
+
+var (
+	c03IntRe  = regexp.MustCompile(`^[+-]?[0-9]+$`)
+	c03UintRe = regexp.MustCompile(`^[0-9]+$`)
+	c03RealRe = regexp.MustCompile(`^[+-]?([0-9]+\.[0-9]*|\.[0-9]+)$`)
+)
+
+type c03Lex struct {
+	data []byte
+	pos  int
+}
+
+// skip passes over white space and comments (7.2.3, 7.2.4).
+func (l *c03Lex) skip() {
+	for l.pos < len(l.data) {
+		c := l.data[l.pos]
+		if c03IsWhite(c) {
+			l.pos++
+		} else if c == '%' {
+			for l.pos < len(l.data) && l.data[l.pos] != '\r' && l.data[l.pos] != '\n' {
+				l.pos++
+			}
+		} else {
+			break
+		}
+	}
+}
+
+// word reads the maximal run of regular characters at the current position: one token (7.2.2).
+func (l *c03Lex) word() string {
+	start := l.pos
+	for l.pos < len(l.data) && c03IsRegular(l.data[l.pos]) {
+		l.pos++
+	}
+	return string(l.data[start:l.pos])
+}
+
+// name reads a name object (7.3.5): SOLIDUS, then regular characters; a NUMBER SIGN must be
+// followed by two hexadecimal digits, and the code 0 is not allowed.
+func (l *c03Lex) name() (string, error) {
+	start := l.pos
+	l.pos++ // '/'
+	raw := l.word()
+	var out []byte
+	for i := 0; i < len(raw); i++ {
+		if raw[i] != '#' {
+			out = append(out, raw[i])
+			continue
+		}
+		if i+2 >= len(raw) || c03Hex(raw[i+1]) < 0 || c03Hex(raw[i+2]) < 0 {
+			return "", fmt.Errorf("name %.30q at %d: '#' not followed by two hex digits", "/"+raw, start)
+		}
+		c := byte(c03Hex(raw[i+1])<<4 | c03Hex(raw[i+2]))
+		if c == 0 {
+			return "", fmt.Errorf("name %.30q at %d: #00 in a name", "/"+raw, start)
+		}
+		out = append(out, c)
+		i += 2
+	}
+	return string(out), nil
+}
+
+// literal reads a literal string (7.3.4.2).
+func (l *c03Lex) literal() (string, error) {
+	start := l.pos
+	l.pos++ // '('
+	depth := 1
+	var out []byte
+	for {
+		if l.pos >= len(l.data) {
+			return "", fmt.Errorf("literal string at %d is not closed", start)
+		}
+		c := l.data[l.pos]
+		l.pos++
+		switch c {
+		case '\\':
+			if l.pos >= len(l.data) {
+				return "", fmt.Errorf("literal string at %d is not closed", start)
+			}
+			e := l.data[l.pos]
+			l.pos++
+			switch e {
+			case 'n':
+				out = append(out, '\n')
+			case 'r':
+				out = append(out, '\r')
+			case 't':
+				out = append(out, '\t')
+			case 'b':
+				out = append(out, '\b')
+			case 'f':
+				out = append(out, '\f')
+			case '(', ')', '\\':
+				out = append(out, e)
+			case '\r': // line continuation
+				if l.pos < len(l.data) && l.data[l.pos] == '\n' {
+					l.pos++
+				}
+			case '\n':
+			case '0', '1', '2', '3', '4', '5', '6', '7':
+				v := int(e - '0')
+				for k := 0; k < 2 && l.pos < len(l.data) && l.data[l.pos] >= '0' && l.data[l.pos] <= '7'; k++ {
+					v = v*8 + int(l.data[l.pos]-'0')
+					l.pos++
+				}
+				out = append(out, byte(v))
+			default: // the REVERSE SOLIDUS is ignored
+				out = append(out, e)
+			}
+		case '(':
+			depth++
+			out = append(out, c)
+		case ')':
+			depth--
+			if depth == 0 {
+				return string(out), nil
+			}
+			out = append(out, c)
+		case '\r': // an unescaped end-of-line marker is read as LINE FEED
+			if l.pos < len(l.data) && l.data[l.pos] == '\n' {
+				l.pos++
+			}
+			out = append(out, '\n')
+		default:
+			out = append(out, c)
+		}
+	}
+}
+
+// hexString reads a hexadecimal string (7.3.4.3).
+func (l *c03Lex) hexString() (string, error) {
+	start := l.pos
+	l.pos++ // '<'
+	var out []byte
+	hi := -1
+	for {
+		if l.pos >= len(l.data) {
+			return "", fmt.Errorf("hexadecimal string at %d is not closed", start)
+		}
+		c := l.data[l.pos]
+		l.pos++
+		if c == '>' {
+			if hi >= 0 {
+				out = append(out, byte(hi<<4))
+			}
+			return string(out), nil
+		}
+		if c03IsWhite(c) {
+			continue
+		}
+		h := c03Hex(c)
+		if h < 0 {
+			return "", fmt.Errorf("hexadecimal string at %d: unexpected character %q", start, c)
+		}
+		if hi < 0 {
+			hi = h
+		} else {
+			out = append(out, byte(hi<<4|h))
+			hi = -1
+		}
+	}
+}
+
+// object reads one direct object or indirect reference (7.3).
+func (l *c03Lex) object(depth int) (*c03Val, error) {
+	if depth > 64 {
+		return nil, fmt.Errorf("nesting too deep")
+	}
+	l.skip()
+	if l.pos >= len(l.data) {
+		return nil, fmt.Errorf("unexpected end of data")
+	}
+	c := l.data[l.pos]
+	switch {
+	case c == '/':
+		s, err := l.name()
+		return &c03Val{kind: 'n', s: s}, err
+	case c == '(':
+		s, err := l.literal()
+		return &c03Val{kind: 's', s: s}, err
+	case c == '<' && l.pos+1 < len(l.data) && l.data[l.pos+1] == '<':
+		start := l.pos
+		l.pos += 2
+		v := &c03Val{kind: 'd', dict: map[string]*c03Val{}}
+		for {
+			l.skip()
+			if l.pos >= len(l.data) {
+				return nil, fmt.Errorf("dictionary at %d is not closed", start)
+			}
+			if bytes.HasPrefix(l.data[l.pos:], []byte(">>")) {
+				l.pos += 2
+				return v, nil
+			}
+			if l.data[l.pos] != '/' {
+				return nil, fmt.Errorf("dictionary at %d: %.20q where a key was expected", start, l.data[l.pos:])
+			}
+			key, err := l.name()
+			if err != nil {
+				return nil, err
+			}
+			if _, dup := v.dict[key]; dup {
+				return nil, fmt.Errorf("dictionary at %d: key %q twice", start, key)
+			}
+			l.skip()
+			if bytes.HasPrefix(l.data[l.pos:], []byte(">>")) {
+				return nil, fmt.Errorf("dictionary at %d: key %q without a value", start, key)
+			}
+			val, err := l.object(depth + 1)
+			if err != nil {
+				return nil, err
+			}
+			v.dict[key] = val
+		}
+	case c == '<':
+		s, err := l.hexString()
+		return &c03Val{kind: 's', s: s}, err
+	case c == '[':
+		start := l.pos
+		l.pos++
+		v := &c03Val{kind: 'a', arr: []*c03Val{}}
+		for {
+			l.skip()
+			if l.pos >= len(l.data) {
+				return nil, fmt.Errorf("array at %d is not closed", start)
+			}
+			if l.data[l.pos] == ']' {
+				l.pos++
+				return v, nil
+			}
+			e, err := l.object(depth + 1)
+			if err != nil {
+				return nil, err
+			}
+			v.arr = append(v.arr, e)
+		}
+	case c03IsDelim(c):
+		return nil, fmt.Errorf("unexpected delimiter %q at %d", c, l.pos)
+	}
+	start := l.pos
+	w := l.word()
+	switch {
+	case w == "null":
+		return &c03Val{kind: 'z'}, nil
+	case w == "true":
+		return &c03Val{kind: 'b', b: true}, nil
+	case w == "false":
+		return &c03Val{kind: 'b'}, nil
+	case c03IntRe.MatchString(w):
+		i, err := strconv.ParseInt(w, 10, 64)
+		if err != nil {
+			return nil, fmt.Errorf("integer %.30q at %d out of range", w, start)
+		}
+		if c03UintRe.MatchString(w) {
+			// "N G R" is an indirect reference
+			save := l.pos
+			l.skip()
+			if w2 := l.word(); c03UintRe.MatchString(w2) {
+				l.skip()
+				if l.word() == "R" {
+					gen, err := strconv.ParseInt(w2, 10, 64)
+					if err != nil || gen > 65535 || i == 0 {
+						return nil, fmt.Errorf("bad reference %s %s R at %d", w, w2, start)
+					}
+					return &c03Val{kind: 'R', i: i, gen: gen}, nil
+				}
+			}
+			l.pos = save
+		}
+		return &c03Val{kind: 'i', i: i}, nil
+	case c03RealRe.MatchString(w):
+		x, err := strconv.ParseFloat(w, 64)
+		if err != nil {
+			return nil, fmt.Errorf("real %.30q at %d out of range", w, start)
+		}
+		return &c03Val{kind: 'r', f: x}, nil
+	}
+	return nil, fmt.Errorf("invalid token %.30q at %d", w, start)
+}
+
+// indirect returns in-use object n, parsed at the offset its cross-reference entry gives:
+// "N G obj" object [stream EOL data EOL endstream] endobj.
+func (f *c03File) indirect(n int64) (*c03Val, error) {
+	if v, ok := f.objs[n]; ok {
+		return v, nil
+	}
+	e, ok := f.entries[n]
+	if !ok || e.kind != 'n' {
+		return nil, fmt.Errorf("object %d is not in use", n)
+	}
+	return f.parseAt(n, e)
+}
+
+func (f *c03File) parseAt(n int64, e c03Entry) (*c03Val, error) {
+	if f.busy[n] {
+		return nil, fmt.Errorf("object %d: /Length depends on itself", n)
+	}
+	f.busy[n] = true
+	defer delete(f.busy, n)
+	m := c03ObjHdr.Find(f.data[e.pos:])
+	if m == nil {
+		return nil, fmt.Errorf("object %d: no header at %d", n, e.pos)
+	}
+	l := &c03Lex{data: f.data, pos: int(e.pos) + len(m) - 1}
+	v, err := l.object(0)
+	if err != nil {
+		return nil, fmt.Errorf("object %d %d: %v", n, e.gen, err)
+	}
+	l.skip()
+	kw := l.word()
+	if kw == "stream" {
+		if v.kind != 'd' {
+			return nil, fmt.Errorf("object %d: stream without a dictionary", n)
+		}
+		if bytes.HasPrefix(l.data[l.pos:], []byte("\r\n")) {
+			l.pos += 2
+		} else if bytes.HasPrefix(l.data[l.pos:], []byte("\n")) {
+			l.pos++
+		} else {
+			return nil, fmt.Errorf("object %d: no EOL after the stream keyword", n)
+		}
+		var length int64
+		switch lv := v.dict["Length"]; {
+		case lv == nil:
+			return nil, fmt.Errorf("object %d: stream without /Length", n)
+		case lv.kind == 'i':
+			length = lv.i
+		case lv.kind == 'R':
+			lo, err := f.resolve(lv)
+			if err != nil {
+				return nil, fmt.Errorf("object %d: /Length %d %d R: %v", n, lv.i, lv.gen, err)
+			}
+			if lo.kind != 'i' || lo.isStream {
+				return nil, fmt.Errorf("object %d: /Length %d %d R is not an integer", n, lv.i, lv.gen)
+			}
+			length = lo.i
+		default:
+			return nil, fmt.Errorf("object %d: /Length is not an integer", n)
+		}
+		if length < 0 || int64(l.pos)+length > int64(len(l.data)) {
+			return nil, fmt.Errorf("object %d: /Length %d exceeds the file", n, length)
+		}
+		v.isStream = true
+		v.stream = l.data[l.pos : l.pos+int(length)]
+		l.pos += int(length)
+		tail := l.data[l.pos:]
+		switch {
+		case bytes.HasPrefix(tail, []byte("\r\nendstream")):
+			l.pos += 2
+		case bytes.HasPrefix(tail, []byte("\nendstream")), bytes.HasPrefix(tail, []byte("\rendstream")):
+			l.pos++
+		default:
+			return nil, fmt.Errorf("object %d: /Length %d is not followed by EOL endstream (found %q)", n, length, tail[:min(len(tail), 16)])
+		}
+		if w := l.word(); w != "endstream" {
+			return nil, fmt.Errorf("object %d: %.20q where endstream was expected", n, w)
+		}
+		l.skip()
+		kw = l.word()
+	}
+	if kw != "endobj" {
+		return nil, fmt.Errorf("object %d %d: %.20q at %d where endobj was expected", n, e.gen, kw, l.pos-len(kw))
+	}
+	f.objs[n] = v
+	return v, nil
+}
+
+// resolve follows an indirect reference; a reference to a free or undefined object is null (7.3.10).
+func (f *c03File) resolve(r *c03Val) (*c03Val, error) {
+	if r == nil || r.kind != 'R' {
+		return r, nil
+	}
+	e, ok := f.entries[r.i]
+	switch {
+	case !ok || e.kind == 'f':
+		return &c03Val{kind: 'z'}, nil
+	case e.kind == 'n':
+		if e.gen != r.gen {
+			return &c03Val{kind: 'z'}, nil
+		}
+		return f.indirect(r.i)
+	}
+	if r.gen != 0 {
+		return &c03Val{kind: 'z'}, nil
+	}
+	st, err := f.objStm(e.pos)
+	if err != nil {
+		return nil, err
+	}
+	if st.opaque {
+		return nil, nil
+	}
+	if e.gen < 0 || e.gen >= int64(len(st.vals)) {
+		return nil, fmt.Errorf("object %d: index %d outside object stream %d", r.i, e.gen, e.pos)
+	}
+	return st.vals[e.gen], nil
+}
+
+// objStm parses object stream c (7.5.7).
+func (f *c03File) objStm(c int64) (*c03ObjStm, error) {
+	if st, ok := f.objStms[c]; ok {
+		return st, nil
+	}
+	e, ok := f.entries[c]
+	if !ok || e.kind != 'n' {
+		kind := "no"
+		if ok {
+			kind = "a type-" + map[byte]string{'f': "0", 'c': "2"}[e.kind]
+		}
+		return nil, fmt.Errorf("object stream %d has %s cross-reference entry", c, kind)
+	}
+	if e.gen != 0 {
+		return nil, fmt.Errorf("object stream %d has generation %d", c, e.gen)
+	}
+	v, err := f.indirect(c)
+	if err != nil {
+		return nil, err
+	}
+	if !v.isStream {
+		return nil, fmt.Errorf("object %d is used as an object stream but is not a stream", c)
+	}
+	if tp := v.dict["Type"]; tp == nil || tp.kind != 'n' || tp.s != "ObjStm" {
+		return nil, fmt.Errorf("object stream %d lacks /Type /ObjStm", c)
+	}
+	nv, fv := v.dict["N"], v.dict["First"]
+	if nv == nil || nv.kind != 'i' || nv.i < 0 || fv == nil || fv.kind != 'i' || fv.i < 0 {
+		return nil, fmt.Errorf("object stream %d: bad /N or /First", c)
+	}
+	st := &c03ObjStm{n: nv.i}
+	f.objStms[c] = st
+	raw := v.stream
+	flt := v.dict["Filter"]
+	if flt != nil && flt.kind == 'a' && len(flt.arr) == 1 {
+		flt = flt.arr[0]
+	}
+	switch {
+	case f.encrypted:
+		st.opaque = true
+		return st, nil
+	case flt == nil || flt.kind == 'z':
+	case flt.kind == 'n' && flt.s == "FlateDecode" && v.dict["DecodeParms"] == nil:
+		zr, err := zlib.NewReader(bytes.NewReader(raw))
+		if err != nil {
+			return nil, fmt.Errorf("object stream %d: %v", c, err)
+		}
+		raw, err = io.ReadAll(zr)
+		if err != nil {
+			return nil, fmt.Errorf("object stream %d: %v", c, err)
+		}
+	default:
+		st.opaque = true // a filter this parser does not implement
+		return st, nil
+	}
+	first := int(fv.i)
+	if first > len(raw) {
+		return nil, fmt.Errorf("object stream %d: /First %d exceeds the %d bytes of data", c, first, len(raw))
+	}
+	hl := &c03Lex{data: raw[:first]}
+	var offs []int
+	for k := int64(0); k < st.n; k++ {
+		hl.skip()
+		w1 := hl.word()
+		hl.skip()
+		w2 := hl.word()
+		if !c03UintRe.MatchString(w1) || !c03UintRe.MatchString(w2) {
+			return nil, fmt.Errorf("object stream %d: pair %d of the offset table is %.12q %.12q", c, k, w1, w2)
+		}
+		num, _ := strconv.ParseInt(w1, 10, 64)
+		off, _ := strconv.Atoi(w2)
+		if len(offs) > 0 && off <= offs[len(offs)-1] || first+off > len(raw) {
+			return nil, fmt.Errorf("object stream %d: offset %d of member %d out of order or outside the data", c, off, k)
+		}
+		st.nums = append(st.nums, num)
+		offs = append(offs, off)
+	}
+	if hl.skip(); hl.pos != len(hl.data) {
+		return nil, fmt.Errorf("object stream %d: %.20q between the %d pairs of the offset table and /First %d", c, hl.data[hl.pos:], st.n, first)
+	}
+	for k := range offs {
+		end := len(raw)
+		if k+1 < len(offs) {
+			end = first + offs[k+1]
+		}
+		ol := &c03Lex{data: raw[first+offs[k] : end]}
+		val, err := ol.object(0)
+		if err != nil {
+			return nil, fmt.Errorf("object stream %d member %d (object %d): %v in %.60q", c, k, st.nums[k], err, ol.data)
+		}
+		if ol.skip(); ol.pos != len(ol.data) {
+			return nil, fmt.Errorf("object stream %d member %d (object %d): %.20q after the object", c, k, st.nums[k], ol.data[ol.pos:])
+		}
+		st.vals = append(st.vals, val)
+		if ce, ok := f.entries[st.nums[k]]; !ok || ce.kind != 'c' || ce.pos != c || ce.gen != int64(k) {
+			return nil, fmt.Errorf("object stream %d member %d is object %d, whose cross-reference entry says %c %d %d", c, k, st.nums[k], ce.kind, ce.pos, ce.gen)
+		}
+	}
+	return st, nil
+}
+
+// objects parses the trailer dictionary, every in-use object and every object stream, and
+// checks every type-2 cross-reference entry against the object stream it names.
+func (f *c03File) objects() error {
+	f.objs = map[int64]*c03Val{}
+	f.busy = map[int64]bool{}
+	f.objStms = map[int64]*c03ObjStm{}
+	if f.xrefStream {
+		m := c03ObjHdr.FindSubmatch(f.data[f.trailerPos:])
+		xn, _ := strconv.ParseInt(string(m[1]), 10, 64)
+		xg, _ := strconv.ParseInt(string(m[2]), 10, 64)
+		// the stream is found through startxref; its own number may have an entry that points
+		// at it or be marked free, but must not belong to another object
+		if e, ok := f.entries[xn]; xn >= f.size || ok && e.kind != 'f' && (e.kind != 'n' || e.pos != f.trailerPos) {
+			return fmt.Errorf("the cross-reference stream is object %d, whose entry (/Size %d) is type %c at %d", xn, f.size, e.kind, e.pos)
+		}
+		t, err := f.parseAt(xn, c03Entry{'n', f.trailerPos, xg})
+		if err != nil {
+			return err
+		}
+		if tp := t.dict["Type"]; !t.isStream || tp == nil || tp.kind != 'n' || tp.s != "XRef" {
+			return fmt.Errorf("the cross-reference stream lacks /Type /XRef")
+		}
+		f.trailer = t
+	} else {
+		l := &c03Lex{data: f.data, pos: int(f.trailerPos)}
+		t, err := l.object(0)
+		if err != nil || t.kind != 'd' {
+			return fmt.Errorf("trailer dictionary: %v", err)
+		}
+		if l.skip(); l.word() != "startxref" {
+			return fmt.Errorf("no startxref after the trailer dictionary")
+		}
+		f.trailer = t
+	}
+	if sz := f.trailer.dict["Size"]; sz == nil || sz.kind != 'i' || sz.i != f.size {
+		return fmt.Errorf("trailer /Size is not the integer %d", f.size)
+	}
+	if enc := f.trailer.dict["Encrypt"]; enc != nil && enc.kind != 'z' {
+		f.encrypted = true
+	}
+	root := f.trailer.dict["Root"]
+	if root == nil || root.kind != 'R' {
+		return fmt.Errorf("trailer /Root is not a reference")
+	}
+	nums := make([]int64, 0, len(f.entries))
+	for n := int64(0); n < f.size; n++ {
+		nums = append(nums, n)
+	}
+	for _, n := range nums {
+		switch e := f.entries[n]; e.kind {
+		case 'n':
+			v, err := f.indirect(n)
+			if err != nil {
+				return err
+			}
+			if tp := v.dict["Type"]; v.isStream && tp != nil && tp.kind == 'n' && tp.s == "ObjStm" {
+				if _, err := f.objStm(n); err != nil {
+					return err
+				}
+			}
+		case 'c':
+			st, err := f.objStm(e.pos)
+			if err != nil {
+				return fmt.Errorf("object %d: %v", n, err)
+			}
+			if e.gen >= st.n {
+				return fmt.Errorf("object %d: index %d in object stream %d with /N %d", n, e.gen, e.pos, st.n)
+			}
+			if !st.opaque && st.nums[e.gen] != n {
+				return fmt.Errorf("object %d: member %d of object stream %d is object %d", n, e.gen, e.pos, st.nums[e.gen])
+			}
+		}
+	}
+	cat, err := f.resolve(root)
+	if err != nil {
+		return err
+	}
+	if cat != nil {
+		if tp := cat.dict["Type"]; cat.kind != 'd' || tp == nil || tp.kind != 'n' || tp.s != "Catalog" {
+			return fmt.Errorf("trailer /Root %d %d R is not a catalog dictionary", root.i, root.gen)
+		}
+	}
+	return nil
+}
+
+// c03Diff compares a written value with what the strict parser extracted; "" means equal.
+// In encrypted files the contents of strings are not compared.
+func c03Diff(path string, want Object, got *c03Val, enc bool) string {
+	if got == nil {
+		return path + ": missing"
+	}
+	bad := func(kind string) string {
+		return fmt.Sprintf("%s: wrote %s %.40s, parsed %s", path, kind, AsString(want), got.show())
+	}
+	switch x := want.(type) {
+	case nil:
+		if got.kind != 'z' {
+			return bad("null")
+		}
+	case Boolean:
+		if got.kind != 'b' || got.b != bool(x) {
+			return bad("boolean")
+		}
+	case Integer:
+		if got.kind != 'i' || got.i != int64(x) {
+			return bad("integer")
+		}
+	case Real:
+		if !(got.kind == 'r' && got.f == float64(x)) && !(got.kind == 'i' && float64(got.i) == float64(x)) {
+			return bad("real")
+		}
+	case Name:
+		if got.kind != 'n' || got.s != string(x) {
+			return bad("name")
+		}
+	case String:
+		if got.kind != 's' || !enc && got.s != string(x) {
+			return bad("string")
+		}
+	case Reference:
+		if got.kind != 'R' || got.i != int64(x.Number()) || got.gen != int64(x.Generation()) {
+			return bad("reference")
+		}
+	case Array:
+		if x == nil {
+			if got.kind != 'z' {
+				return bad("nil array")
+			}
+			return ""
+		}
+		if got.kind != 'a' || len(got.arr) != len(x) {
+			return bad(fmt.Sprintf("array of %d", len(x)))
+		}
+		for i := range x {
+			if d := c03Diff(fmt.Sprintf("%s[%d]", path, i), x[i], got.arr[i], enc); d != "" {
+				return d
+			}
+		}
+	case Dict:
+		if x == nil {
+			if got.kind != 'z' {
+				return bad("nil dictionary")
+			}
+			return ""
+		}
+		if got.kind != 'd' {
+			return bad("dictionary")
+		}
+		n := 0
+		for k, v := range x {
+			if v == nil {
+				if g := got.dict[string(k)]; g != nil && g.kind != 'z' {
+					return bad("dictionary")
+				}
+				continue
+			}
+			n++
+			if d := c03Diff(fmt.Sprintf("%s/%q", path, string(k)), v, got.dict[string(k)], enc); d != "" {
+				return d
+			}
+		}
+		for _, g := range got.dict {
+			if g.kind != 'z' {
+				n--
+			}
+		}
+		if n != 0 {
+			return bad("dictionary")
+		}
+	}
+	return ""
+}
+
+func (v *c03Val) show() string {
+	switch v.kind {
+	case 'z':
+		return "null"
+	case 'b':
+		return fmt.Sprint(v.b)
+	case 'i':
+		return fmt.Sprint(v.i)
+	case 'r':
+		return fmt.Sprint("real ", v.f)
+	case 's':
+		return fmt.Sprintf("string %.30q", v.s)
+	case 'n':
+		return fmt.Sprintf("name %.30q", v.s)
+	case 'R':
+		return fmt.Sprintf("%d %d R", v.i, v.gen)
+	case 'a':
+		return fmt.Sprintf("array of %d", len(v.arr))
+	}
+	return fmt.Sprintf("dictionary of %d", len(v.dict))
+}
+
+// c03Get returns the value the strict parser extracts for ref (nil, nil if it lies in an
+// object stream this parser cannot open).
+func (f *c03File) get(ref Reference) (*c03Val, error) {
+	n := int64(ref.Number())
+	e, ok := f.entries[n]
+	switch {
+	case !ok:
+		return nil, fmt.Errorf("no cross-reference entry")
+	case e.kind == 'f':
+		return nil, fmt.Errorf("the entry is free")
+	case e.kind == 'n' && e.gen != int64(ref.Generation()):
+		return nil, fmt.Errorf("the entry has generation %d", e.gen)
+	}
+	return f.resolve(&c03Val{kind: 'R', i: n, gen: int64(ref.Generation())})
+}
+
+// c03Compare checks what the strict parser extracts from doc.bytes against what was written.
+func c03Compare(doc *c02Doc, f *c03File) []string {
+	var out []string
+	if f.encrypted != (doc.userPwd != "" || doc.ownerPwd != "") {
+		out = append(out, fmt.Sprintf("trailer /Encrypt present: %v", f.encrypted))
+	}
+	for ref, want := range doc.objects {
+		got, err := f.get(ref)
+		if err != nil {
+			out = append(out, fmt.Sprintf("%v: %v", ref, err))
+		} else if got == nil {
+			continue
+		} else if got.isStream {
+			out = append(out, fmt.Sprintf("%v: written as a direct object, found a stream", ref))
+		} else if d := c03Diff(fmt.Sprint(ref), want, got, f.encrypted); d != "" {
+			out = append(out, d)
+		}
+	}
+	for _, ref := range doc.unused {
+		if e, ok := f.entries[int64(ref.Number())]; ok && e.kind != 'f' {
+			out = append(out, fmt.Sprintf("%v was never written but has a type %c entry", ref, e.kind))
+		}
+	}
+	for _, s := range doc.streams {
+		got, err := f.get(s.ref)
+		if err != nil || got == nil || !got.isStream {
+			out = append(out, fmt.Sprintf("stream %v: %v %v", s.ref, got, err))
+			continue
+		}
+		for k, v := range s.dict {
+			if k == "Length" || k == "Filter" || k == "DecodeParms" || v == nil && got.dict[string(k)] == nil {
+				continue
+			}
+			if d := c03Diff(fmt.Sprintf("stream %v/%q", s.ref, string(k)), v, got.dict[string(k)], f.encrypted); d != "" {
+				out = append(out, d)
+			}
+		}
+		if f.encrypted {
+			continue
+		}
+		flt := got.dict["Filter"]
+		switch {
+		case len(s.filters) == 0:
+			if flt != nil && flt.kind != 'z' || !bytes.Equal(got.stream, s.data) {
+				out = append(out, fmt.Sprintf("stream %v: %d bytes written without filter, found %d bytes, /Filter %v", s.ref, len(s.data), len(got.stream), flt != nil))
+			}
+		case len(s.filters) == 1:
+			if flt != nil && flt.kind == 'a' && len(flt.arr) == 1 {
+				flt = flt.arr[0]
+			}
+			if flt == nil || flt.kind != 'n' {
+				out = append(out, fmt.Sprintf("stream %v: written with one filter, /Filter is not a name", s.ref))
+				continue
+			}
+			ff, isFlate := s.filters[0].(FilterFlate)
+			if _, isHex := s.filters[0].(FilterASCIIHex); isHex && flt.s == "ASCIIHexDecode" {
+				l := &c03Lex{data: append([]byte("<"), got.stream...)}
+				dec, err := l.hexString()
+				if err != nil || dec != string(s.data) {
+					out = append(out, fmt.Sprintf("stream %v: ASCIIHex data decodes to %d bytes (%v), wrote %d", s.ref, len(dec), err, len(s.data)))
+				}
+			} else if isFlate && ff.Predictor == 0 && flt.s == "FlateDecode" {
+				var dec []byte
+				zr, err := zlib.NewReader(bytes.NewReader(got.stream))
+				if err == nil {
+					dec, err = io.ReadAll(zr)
+				}
+				if err != nil || !bytes.Equal(dec, s.data) {
+					out = append(out, fmt.Sprintf("stream %v: Flate data inflates to %d bytes (%v), wrote %d", s.ref, len(dec), err, len(s.data)))
+				}
+			}
+		}
+	}
+	return out
+}
+
+// ---- C03: further write programs (members of the C02 program space chosen for what a
+// strict parser can tell apart: token boundaries, name and string escapes, number syntax,
+// object numbers far above the byte offsets) ----
+
+func c03Seed() int64 {
+	seed := int64(1)
+	fmt.Sscanf(os.Getenv("VERIF_SEED"), "%d", &seed)
+	return seed
+}
+
+// c03Words returns all byte strings over alpha with lengths from..to.
+func c03Words(alpha []byte, from, to int) [][]byte {
+	var out [][]byte
+	cur := [][]byte{{}}
+	for l := 1; l <= to; l++ {
+		var next [][]byte
+		for _, s := range cur {
+			for _, c := range alpha {
+				next = append(next, append(append([]byte{}, s...), c))
+			}
+		}
+		if l >= from {
+			out = append(out, next...)
+		}
+		cur = next
+	}
+	return out
+}
+
+// c03Names: names over an alphabet of regular characters, delimiters, white space, bytes
+// outside 0x21..0x7e, the NUMBER SIGN and hexadecimal / non-hexadecimal characters around it
+// (no NUL: 7.3.5 excludes it from names).
+func c03Names(rng *rand.Rand) []Name {
+	out := []Name{"", "Type", "A#42", "a b#c", "Lang#C#4", "F# minor", "#", "##", "1.5", "+", "-", ".", "true", "null", "R", "obj", "endobj", "stream"}
+	alpha := []byte{'#', '2', '3', 'A', 'f', 'Z', 'g', ' ', '/', '(', ')', '%', '<', '>', '[', ']', '{', '}', 0x7f, 0x80, 0xff, '\n', '\r', '\t', '\f', '.', '+', '-', '!', '~', 0x01}
+	maxLen := 2
+	if b2Thorough() {
+		maxLen = 3
+	}
+	for _, w := range c03Words(alpha, 1, maxLen) {
+		out = append(out, Name(w))
+	}
+	for _, w := range c03Words([]byte{'#', '2', '0', 'Z', 'e'}, 3, 4) {
+		out = append(out, Name(w))
+	}
+	n := 150
+	if b2Thorough() {
+		n = 3000
+	}
+	for i := 0; i < n; i++ {
+		w := make([]byte, 1+rng.Intn(9))
+		for k := range w {
+			switch rng.Intn(4) {
+			case 0:
+				w[k] = alpha[rng.Intn(len(alpha))]
+			case 1:
+				w[k] = '#'
+			default:
+				w[k] = byte(1 + rng.Intn(255))
+			}
+		}
+		out = append(out, Name(w))
+	}
+	return out
+}
+
+func c03Strings(rng *rand.Rand) []String {
+	var out []String
+	for _, w := range []string{"", "(a) and (b", "\\(\\)", "a\\", "(\r\n)", "\\\r", "\\\n", "\\101", "\\0", "ends in CR\r", "\r\nstarts with EOL"} {
+		out = append(out, String(w))
+	}
+	alpha := []byte{'\n', '\r', ' ', '(', ')', '\\', '0', '7', 'n', 'A', 0x00, 0x80, 0xff, '<', '>', '\t', '\b', '\f'}
+	maxLen := 2
+	if b2Thorough() {
+		maxLen = 3
+	}
+	for _, w := range c03Words(alpha, 1, maxLen) {
+		out = append(out, String(w))
+	}
+	all := make([]byte, 256)
+	for i := range all {
+		all[i] = byte(i)
+	}
+	out = append(out, String(all))
+	n := 100
+	if b2Thorough() {
+		n = 2000
+	}
+	for i := 0; i < n; i++ {
+		w := make([]byte, rng.Intn(40))
+		for k := range w {
+			if rng.Intn(2) == 0 {
+				w[k] = alpha[rng.Intn(len(alpha))]
+			} else {
+				w[k] = byte(rng.Intn(256))
+			}
+		}
+		out = append(out, String(w))
+	}
+	return out
+}
+
+func c03Numbers(rng *rand.Rand) []Object {
+	var out []Object
+	for _, i := range []int64{0, 1, -1, 9, 10, 127, 255, 256, 65535, 65536, math.MaxInt32, math.MinInt32, math.MaxInt32 + 1, math.MaxInt64, math.MinInt64} {
+		out = append(out, Integer(i))
+	}
+	for _, r := range []float64{0, 1, -1, 0.5, -0.25, 3, -3, 1e-7, 1e-5, 123456789.125, 1e15, 1e20, -1e20, 1e21, 0.1, 0.1 + 0.2, math.Pi, 9007199254740993, 1234.5678901234567,
+		4294967296, -2147483649, 5e-324, math.MaxFloat64, -math.MaxFloat64, 1.5e-10} {
+		out = append(out, Real(r))
+	}
+	for i := 0; i < 60; i++ {
+		switch i % 3 {
+		case 0:
+			out = append(out, Integer(rng.Int63()>>uint(rng.Intn(63))*int64(1-2*rng.Intn(2))))
+		case 1:
+			out = append(out, Real(rng.NormFloat64()*math.Pow(10, float64(rng.Intn(30)-15))))
+		default:
+			out = append(out, Real(float64(rng.Intn(2000)-1000)/float64(1+rng.Intn(64))))
+		}
+	}
+	return out
+}
+
+// c03Kinds: one or two values of every kind of object, by the character class of their
+// first and last byte in the file.
+func c03Kinds(target Reference) []Object {
+	return []Object{nil, Boolean(true), Boolean(false), Integer(1), Integer(-7), Real(0.5), Real(-2), Real(3), Name("N"), Name(""), Name("1"),
+		String("s"), String("\x00\xff\xfe"), String(""), Array{}, Array{Integer(1)}, Dict{}, Dict{"K": Integer(1)}, target, NewReference(7, 3)}
+}
+
+func c03RandomValue(rng *rand.Rand, depth int, names []Name, strs []String, nums []Object, target Reference) Object {
+	k := rng.Intn(12)
+	if depth >= 3 && k >= 10 {
+		k = rng.Intn(10)
+	}
+	switch k {
+	case 0:
+		return nil
+	case 1:
+		return Boolean(rng.Intn(2) == 0)
+	case 2, 3:
+		return nums[rng.Intn(len(nums))]
+	case 4, 5:
+		return names[rng.Intn(len(names))]
+	case 6, 7:
+		return strs[rng.Intn(len(strs))]
+	case 8:
+		return target
+	case 9:
+		return NewReference(uint32(1+rng.Intn(100000)), uint16(rng.Intn(3)*rng.Intn(65536)))
+	case 10:
+		a := Array{}
+		for n := rng.Intn(6); n > 0; n-- {
+			a = append(a, c03RandomValue(rng, depth+1, names, strs, nums, target))
+		}
+		return a
+	}
+	d := Dict{}
+	for n := rng.Intn(5); n > 0; n-- {
+		d[names[rng.Intn(len(names))]] = c03RandomValue(rng, depth+1, names, strs, nums, target)
+	}
+	return d
+}
+
+type c03Prog struct {
+	name string
+	run  func(p *c03Pen) error
+}
+
+// c03Pen records what a program writes.
+type c03Pen struct {
+	w   *Writer
+	doc *c02Doc
+	rng *rand.Rand
+}
+
+func (p *c03Pen) put(ref Reference, obj Object) error {
+	p.doc.objects[ref] = obj
+	return p.w.Put(ref, obj)
+}
+
+func (p *c03Pen) compressed(objs ...Object) error {
+	refs := make([]Reference, len(objs))
+	for i := range objs {
+		refs[i] = p.w.Alloc()
+		p.doc.objects[refs[i]] = objs[i]
+	}
+	return p.w.WriteCompressed(refs, objs...)
+}
+
+func (p *c03Pen) gap(n int) {
+	for i := 0; i < n; i++ {
+		r := p.w.Alloc()
+		if i == 0 || i == n-1 {
+			p.doc.unused = append(p.doc.unused, r)
+		}
+	}
+}
+
+func (p *c03Pen) stream(dict Dict, data []byte, during []Object, filters ...Filter) error {
+	ref := p.w.Alloc()
+	sw, err := p.w.OpenStream(ref, dict, filters...)
+	if err != nil {
+		return err
+	}
+	for _, o := range during {
+		if err := p.put(p.w.Alloc(), o); err != nil {
+			return err
+		}
+	}
+	if _, err := sw.Write(data); err != nil {
+		return err
+	}
+	if err := sw.Close(); err != nil {
+		return err
+	}
+	p.doc.streams = append(p.doc.streams, c02Stream{ref, dict, filters, data})
+	return nil
+}
+
+func (p *c03Pen) pages() error {
+	ref := p.w.Alloc()
+	p.w.GetMeta().Catalog.Pages = ref
+	return p.put(ref, Dict{"Type": Name("Pages"), "Kids": Array{}, "Count": Integer(0)})
+}
+
+// spread writes the items in portions: alternately with Put, in one WriteCompressed call
+// (where the portion is not the last member, and where it is), and as an entry of a stream
+// dictionary.
+func (p *c03Pen) spread(items []Object, portion int) error {
+	for k := 0; len(items) > 0; k++ {
+		n := min(portion, len(items))
+		part := Array(items[:n])
+		items = items[n:]
+		var err error
+		switch k % 4 {
+		case 0:
+			err = p.put(p.w.Alloc(), part)
+		case 1:
+			err = p.compressed(part, Integer(k))
+		case 2:
+			err = p.compressed(Integer(k), part)
+		default:
+			err = p.stream(Dict{"Part": part}, []byte("stream data\n"), nil)
+		}
+		if err != nil {
+			return err
+		}
+	}
+	return nil
+}
+
+func c03Programs() []c03Prog {
+	return []c03Prog{
+		{"adjacent-objects", func(p *c03Pen) error {
+			// every ordered pair of kinds of objects next to each other: in arrays, as
+			// dictionary values followed by the next key, as neighbours in an object stream
+			if err := p.pages(); err != nil {
+				return err
+			}
+			target := p.w.Alloc()
+			if err := p.put(target, Integer(42)); err != nil {
+				return err
+			}
+			kinds := c03Kinds(target)
+			var pairs, flat, dicts Array
+			for _, a := range kinds {
+				for _, b := range kinds {
+					pairs = append(pairs, Array{a, b})
+					flat = append(flat, a, b)
+					dicts = append(dicts, Dict{"A": a, "B": b})
+				}
+			}
+			for i := 0; i < 3; i++ {
+				for _, o := range []Object{pairs, flat, dicts} {
+					var err error
+					switch i {
+					case 0:
+						err = p.put(p.w.Alloc(), o)
+					case 1:
+						err = p.compressed(o, Integer(1), o)
+					default:
+						err = p.stream(Dict{"V": o, "W": Integer(1)}, []byte("x"), []Object{o})
+					}
+					if err != nil {
+						return err
+					}
+				}
+			}
+			// each kind as a top-level object, directly and as members of one object stream
+			// in every cyclic order
+			for _, a := range kinds {
+				if _, isRef := a.(Reference); isRef {
+					continue
+				}
+				if err := p.put(p.w.Alloc(), a); err != nil {
+					return err
+				}
+			}
+			for s := 0; s < len(kinds); s++ {
+				var objs []Object
+				for i := range kinds {
+					o := kinds[(i*(s+1)+s)%len(kinds)]
+					if _, isRef := o.(Reference); !isRef {
+						objs = append(objs, o)
+					}
+				}
+				if err := p.compressed(objs...); err != nil {
+					return err
+				}
+			}
+			return nil
+		}},
+		{"names", func(p *c03Pen) error {
+			if err := p.pages(); err != nil {
+				return err
+			}
+			var items []Object
+			for _, nm := range c03Names(p.rng) {
+				items = append(items, Array{nm, Integer(1)}, Dict{nm: Integer(2)}, Dict{"K": nm, "L": nm}, Dict{nm: nm})
+			}
+			return p.spread(items, 400)
+		}},
+		{"strings-and-numbers", func(p *c03Pen) error {
+			if err := p.pages(); err != nil {
+				return err
+			}
+			var items []Object
+			for _, s := range c03Strings(p.rng) {
+				items = append(items, s)
+			}
+			for _, x := range c03Numbers(p.rng) {
+				items = append(items, x, Array{x, x}, Dict{"X": x, "Y": x})
+			}
+			if err := p.spread(items, 300); err != nil {
+				return err
+			}
+			for _, x := range c03Numbers(p.rng) {
+				if err := p.put(p.w.Alloc(), x); err != nil {
+					return err
+				}
+			}
+			return nil
+		}},
+		{"random-program", func(p *c03Pen) error {
+			// a pseudo-random sequence of the calls of the program space
+			names, strs, nums := c03Names(p.rng), c03Strings(p.rng), c03Numbers(p.rng)
+			target := p.w.Alloc()
+			val := func() Object { return c03RandomValue(p.rng, 0, names, strs, nums, target) }
+			dict := func() Dict {
+				d := Dict{}
+				for n := p.rng.Intn(4); n > 0; n-- {
+					nm := names[p.rng.Intn(len(names))]
+					if nm != "Length" && nm != "Filter" && nm != "DecodeParms" && nm != "Type" {
+						d[nm] = val()
+					}
+				}
+				return d
+			}
+			steps := 60
+			if b2Thorough() {
+				steps = 400
+			}
+			pagesAt := p.rng.Intn(steps)
+			for i := 0; i < steps; i++ {
+				var err error
+				if i == pagesAt {
+					err = p.pages()
+				}
+				if err != nil {
+					return err
+				}
+				switch p.rng.Intn(8) {
+				case 0:
+					p.gap(1 + p.rng.Intn(1+p.rng.Intn(400)))
+				case 1, 2:
+					o := val()
+					if o == nil {
+						o = Array{nil}
+					}
+					ref := p.w.Alloc()
+					if p.rng.Intn(6) == 0 {
+						ref = NewReference(ref.Number(), uint16(1+p.rng.Intn(65534)))
+					}
+					err = p.put(ref, o)
+				case 3, 4, 5:
+					var objs []Object
+					for n := 1 + p.rng.Intn(1+p.rng.Intn(30)); n > 0; n-- {
+						o := val()
+						if _, isRef := o.(Reference); isRef || o == nil {
+							o = Array{o}
+						}
+						objs = append(objs, o)
+					}
+					err = p.compressed(objs...)
+				default:
+					var during []Object
+					for n := p.rng.Intn(3); n > 0; n-- {
+						during = append(during, Array{val()})
+					}
+					var filters []Filter
+					if p.w.GetMeta().Version >= V1_2 {
+						filters = [][]Filter{nil, {FilterFlate{}}, {FilterASCIIHex{}}, {FilterASCII85{}}}[p.rng.Intn(4)]
+					}
+					data := make([]byte, p.rng.Intn(1+p.rng.Intn(3000)))
+					p.rng.Read(data)
+					err = p.stream(dict(), data, during, filters...)
+				}
+				if err != nil {
+					return fmt.Errorf("step %d: %w", i, err)
+				}
+			}
+			return p.put(target, Integer(42))
+		}},
+	}
+}
+
+// c03Sparse: object numbers far above the byte offsets of the file (references allocated and
+// never written before, between and after the objects that are written).
+func c03Sparse(gap, layout int) c03Prog {
+	return c03Prog{fmt.Sprintf("sparse gap=%d layout=%d", gap, layout), func(p *c03Pen) error {
+		pagesDict := Dict{"Type": Name("Pages"), "Kids": Array{}, "Count": Integer(0)}
+		switch layout {
+		case 0:
+			// the smallest file: the gap, then one object stream
+			p.gap(gap)
+			pages := p.w.Alloc()
+			p.w.GetMeta().Catalog.Pages = pages
+			p.doc.objects[pages] = pagesDict
+			x := p.w.Alloc()
+			p.doc.objects[x] = Integer(7)
+			return p.w.WriteCompressed([]Reference{pages, x}, pagesDict, Integer(7))
+		case 1:
+			if err := p.pages(); err != nil {
+				return err
+			}
+			p.gap(gap)
+			if err := p.compressed(Integer(1), Name("X"), String("three")); err != nil {
+				return err
+			}
+			p.gap(gap / 2)
+			if err := p.compressed(Array{Integer(2)}, Dict{"D": Integer(2)}); err != nil {
+				return err
+			}
+			return p.put(p.w.Alloc(), String("last"))
+		default:
+			// the gap after the object streams, an object with a high generation number
+			if err := p.compressed(Integer(1), Name("X")); err != nil {
+				return err
+			}
+			if err := p.pages(); err != nil {
+				return err
+			}
+			p.gap(gap)
+			if err := p.put(NewReference(p.w.Alloc().Number(), 65534), String("high generation")); err != nil {
+				return err
+			}
+			return p.compressed(Integer(3))
+		}
+	}}
+}
+
+func c03Run(prog c03Prog, v Version, human, seekable bool, user, owner string, seed int64) (*c02Doc, error) {
+	doc := &c02Doc{objects: map[Reference]Object{}, version: v, userPwd: user, ownerPwd: owner}
+	doc.desc = fmt.Sprintf("%s v=%v human=%v seekable=%v user=%q owner=%q seed=%d", prog.name, v, human, seekable, user, owner, seed)
+	var sink io.Writer
+	var buf bytes.Buffer
+	mem := &c02MemSink{}
+	if seekable {
+		sink = mem
+	} else {
+		sink = &buf
+	}
+	w, err := NewWriter(sink, v, &WriterOptions{HumanReadable: human, UserPassword: user, OwnerPassword: owner})
+	if err != nil {
+		return nil, fmt.Errorf("%s: NewWriter: %w", doc.desc, err)
+	}
+	if err := prog.run(&c03Pen{w, doc, rand.New(rand.NewSource(seed))}); err != nil {
+		return nil, fmt.Errorf("%s: %w", doc.desc, err)
+	}
+	if err := w.Close(); err != nil {
+		return nil, fmt.Errorf("%s: Close: %w", doc.desc, err)
+	}
+	doc.bytes = buf.Bytes()
+	if seekable {
+		doc.bytes = mem.data
+	}
+	return doc, nil
+}
+
+// c03Verify runs the strict parser over doc and compares the extracted values; it reports
+// at most a few lines per document.
+func c03Verify(t *testing.T, doc *c02Doc) {
+	f, err := c03Parse(doc.bytes)
+	if err != nil {
+		t.Errorf("B2-FAIL structure %s: %v", doc.desc, err)
+		return
+	}
+	if err := c03Streams(doc.bytes); err != nil {
+		t.Errorf("B2-FAIL stream-length %s: %v", doc.desc, err)
+	}
+	for i, d := range c03Compare(doc, f) {
+		if i == 3 {
+			break
+		}
+		t.Errorf("B2-FAIL value %s: %s", doc.desc, d)
+	}
+}
+
+func c03AllVersions() []Version {
+	if b2Thorough() {
+		return []Version{V1_0, V1_1, V1_2, V1_3, V1_4, V1_5, V1_6, V1_7, V2_0}
+	}
+	return []Version{V1_1, V1_4, V1_5, V1_7, V2_0}
 }
